@@ -5,7 +5,7 @@ from __future__ import annotations
 import ast
 
 from ..cfg import CFG
-from ..core import AnalysisError, walk_own
+from ..core import callee_is, AnalysisError, walk_own
 from ..astutil import cond_terms, inside
 from ..defuse import DefUse, Terms, show, walk_term
 from ..defuse import key as tkey
@@ -256,8 +256,7 @@ def _check_predict(ctx, f):
     T = Terms(du, phi_vars=True)
     cfg = CFG(f.node)
     calls = [n for n in ast.walk(f.node) if isinstance(n, ast.Call)
-             and isinstance(n.func, ast.Name)
-             and n.func.id == "calibrate_scores"]
+             and callee_is(prog, f, n, TWINS[0])]
     ctx.require(len(calls) == 1,
                 f"{f.qual}: expected one calibrate_scores call, found "
                 f"{len(calls)}")
